@@ -118,6 +118,20 @@ func runC14(c *Ctx) {
 			"allowed: strconv.ParseUint result, the sentinel read by Sscanf(\"sentinel %x\"), this process' own sentinel(), constants and arithmetic; found: "+bad)
 	}
 	r.Check("C14.no-text-flow", "parseStackPCs/PC append sites", m.Pos(psp.Pos()), nApp == 1, fmt.Sprintf("%d", nApp))
+	// the number parsed is the WHOLE rest of the line after the first " pc=": then a file path or
+	// argument text containing " pc=" can only make the parse fail (the frame is skipped), never
+	// supply a PC of its own
+	nParse := 0
+	for _, f := range WithClosures(psp) {
+		for _, cs := range callsIn(f, "strconv.ParseUint") {
+			nParse++
+			d := describeArg(cs, 0)
+			ok := strings.HasPrefix(d, "strings.Cut(") && strings.HasSuffix(d, `, " pc=")#1`) && strings.Count(d, "strings.Cut(") == 1
+			r.Check("C14.no-text-flow", "parseStackPCs/the PC text is everything after the pc= marker", m.Pos(cs.Pos()), ok,
+				"ParseUint must be given Cut(line, \" pc=\")'s remainder unmodified (trimming or cutting it again lets text before the real field decide the PC); got "+shortDesc(d))
+		}
+	}
+	r.Check("C14.no-text-flow", "parseStackPCs/PC parse sites", m.Pos(psp.Pos()), nParse == 1, fmt.Sprintf("%d", nParse))
 
 	// ---- relocation: appended PC = parsed pc − parent's sentinel + this process' sentinel (+1 for traps) ----
 	c15Length(c, m, "C14.name-cap")
